@@ -506,6 +506,9 @@ func sortedAfter(info *types.Info, g *FCFG, site ast.Node, obj types.Object) boo
 			if isSort(n) {
 				return false
 			}
+			if isSelfAppend(info, n, obj) {
+				return false // a later loop accumulating into the same slice: still unordered, still unread
+			}
 			return readsObj(info, n, obj)
 		},
 		Barrier: isSort,
@@ -616,4 +619,31 @@ func containsNode(outer ast.Node, inner ast.Node) bool {
 		return !found
 	})
 	return found
+}
+
+// isSelfAppend: n is `obj = append(obj, e...)` where no e reads obj.
+func isSelfAppend(info *types.Info, n ast.Node, obj types.Object) bool {
+	as, ok := n.(*ast.AssignStmt)
+	if !ok || len(as.Lhs) != 1 || len(as.Rhs) != 1 {
+		return false
+	}
+	if id, ok := unparen(as.Lhs[0]).(*ast.Ident); !ok || objOf(info, id) != obj {
+		return false
+	}
+	call, ok := unparen(as.Rhs[0]).(*ast.CallExpr)
+	if !ok || len(call.Args) < 1 {
+		return false
+	}
+	if id, ok := call.Fun.(*ast.Ident); !ok || id.Name != "append" {
+		return false
+	}
+	if id, ok := unparen(call.Args[0]).(*ast.Ident); !ok || objOf(info, id) != obj {
+		return false
+	}
+	for _, a := range call.Args[1:] {
+		if usesObj(info, a, obj) {
+			return false
+		}
+	}
+	return true
 }
